@@ -24,8 +24,10 @@ func countLoops(fd *ast.FuncDecl) int {
 }
 
 // checkFrames decides the syntactic declarations
-//   frame Type.field: f1, f2    only the listed functions of the package may assign the field
-//   callers pkg.Func: f1, f2    only the listed functions (pkgshort.Key) may call Func
+//
+//	frame Type.field: f1, f2    only the listed functions of the package may assign the field
+//	callers pkg.Func: f1, f2    only the listed functions (pkgshort.Key) may call Func
+//
 // over the whole loaded module. Each declaration yields one obligation.
 func (w *World) checkFrames(prop string) []*Obligation {
 	var out []*Obligation
